@@ -176,4 +176,8 @@ NoLeak == pc = "done" => \A f \in Files : \A i \in 1..NOf(f) :
 \* completion orders do not appear in it
 OutcomeIsF == pc = "done" => \A f \in Files : \A i \in 1..NOf(f) :
                  scores[f][i] = <<CHOOSE k \in 1..Folds : <<f, i - 1>> \in FoldsOfFile(f)[k], <<f, i - 1>>>>
+\* ---- liveness (checked by Brew_live.cfg): under weak fairness of the next-state action every behaviour comes to rest
+\* in a state without successor -- the modelled procedure terminates for every input, schedule and fault inside the bounds
+FairSpec == Spec /\ WF_vars(Next)
+Halts == <>[](~ENABLED Next)
 =============================================================================
